@@ -484,8 +484,10 @@ fn header_cases(ctx: &Ctx, stats: &Stats) {
     let root = |xsd: &str| format!("<AUTOSAR xsi:schemaLocation=\"http://autosar.org/schema/r4.0 {xsd}\" xmlns=\"http://autosar.org/schema/r4.0\" xmlns:xsi=\"http://www.w3.org/2001/XMLSchema-instance\">");
     let w = |t: &str| json!({"text": t});
     // trailing data after the root element
-    for (suffix, documented) in [("<X/>", true), ("text", true), ("<AR-PACKAGES/>", true), ("<!--c-->", false), ("\n \n", false), ("<?pi?>", false), ("</AUTOSAR>", true), ("\u{1}", true), ("\n\u{b}\n", true), (" \u{0} ", true), ("\u{1b}", true)] {
-        let text = format!("{hdr}{}{body}{suffix}", root(v.filename()));
+    for (suffix, documented) in [("<X/>", true), ("text", true), ("<AR-PACKAGES/>", true), ("<!--c-->", false), ("\n \n", false), ("<?pi?>", false), ("</AUTOSAR>", true), ("\u{1}", true), ("\n\u{b}\n", true), (" \u{0} ", true), ("\u{1b}", true),
+        // data behind a trailer that is not data itself
+        ("<!--c--><X/>", true), ("<!--c-->text", true), ("<!--c--><AR-PACKAGES/>", true), ("<!--c--></AUTOSAR>", true), ("<?pi?><X/>", true), ("\n<!--c-->\n<X/>", true), ("<!--a--><!--b-->text", true), ("<!--c--><?pi?>\u{1}", true), ("<!--c--><AUTOSAR>", true)] {
+        let text = format!("{hdr}{}{body}{suffix}", root(xsd_name(v)));
         let label = format!("trailing-data {suffix:?}");
         check_text(ctx, stats, &label, &text, documented.then_some("data-after-root"), &|| w(&text));
     }
@@ -506,11 +508,11 @@ fn header_cases(ctx: &Ctx, stats: &Stats) {
     }
     // header variants: agreement only
     for h in ["<?xml version=\"1.0\" encoding=\"UTF-8\"?>", "<?xml version=\"1.1\" encoding=\"utf-8\"?>", "<?xml version=\"1.0\"?>", "", "<?xml version=\"1.0\" encoding=\"utf-8\"?><?xml version=\"1.0\" encoding=\"utf-8\"?>"] {
-        let text = format!("{h}{}{body}", root(v.filename()));
+        let text = format!("{h}{}{body}", root(xsd_name(v)));
         check_text(ctx, stats, "xml-header-variant", &text, None, &|| w(&text));
     }
     // a second xml header inside the document
-    let text = format!("{hdr}{}<?xml version=\"1.0\" encoding=\"utf-8\"?>{body}", root(v.filename()));
+    let text = format!("{hdr}{}<?xml version=\"1.0\" encoding=\"utf-8\"?>{body}", root(xsd_name(v)));
     check_text(ctx, stats, "xml-header-inside", &text, None, &|| w(&text));
 }
 
